@@ -295,6 +295,13 @@ def execute(engine, prop, config, ops=None, rng=None, stop_on=None):
                 outcome = "hang"
                 vs = [viol(engine.op_property(world, op, prop), "T.hang",
                            "library call did not return within %ds" % STEP_TIMEOUT_S)]
+            except Exception:
+                if res.foreign:
+                    # an oracle tripped over an object that an earlier, already recorded violation of
+                    # another property left in an impossible state: the run ends here
+                    res.stats["aborted.oracle_crash_after_other_property_violation"] += 1
+                    break
+                raise
             res.ops.append(op)
             res.outcomes.append(outcome)
             sh = engine.state_hash(world)
